@@ -196,12 +196,15 @@ def keyMatches (r : KeyRe) (k : Doc) : Bool :=
 inductive Rule where
   | scalar (t : Ty) (required : Bool) (prefixes : List String)
       -- `prefixes` ≠ []: `pattern` given as alternatives, `re.match` = one of them is a prefix
+  | scalarNN (t : Ty)
+      -- `nullable: false`: a scalar of type `t` that must have a value (core.py:250-256)
   | seq (items : List Rule) (required : Bool)
   | map (fields : List (String × Rule)) (regex : List (KeyRe × Rule)) (allowEmpty : Bool) (required : Bool)
 deriving Inhabited
 
 def Rule.required : Rule → Bool
   | .scalar _ r _ => r
+  | .scalarNN _ => false
   | .seq _ r => r
   | .map _ _ _ r => r
 
@@ -219,6 +222,7 @@ def validate : Nat → Rule → Doc → Bool
       if rule.required then false
       else match rule with
         | .map .. => false
+        | .scalarNN _ => false      -- nullable.novalue
         | _ => true
     | _ =>
       match rule with
@@ -228,6 +232,7 @@ def validate : Nat → Rule → Doc → Bool
             match v with
             | .str s => prefixes.any (fun p => p.toList.isPrefixOf s.toList)
             | _ => false)
+      | .scalarNN t => tyOk t v
       | .seq items _ =>
         match v with
         | .list xs => xs.all (fun x => items.any (fun r => validate fuel r x))
@@ -260,7 +265,7 @@ def runDetailFields : List (String × Rule) :=
     ("min_iteration_time", opt .int), ("max_invocation_time", opt .int),
     ("ignore_timeouts", opt .bool), ("parallel_interference_factor", opt .float),
     ("execute_exclusively", opt .bool), ("retries_after_failure", opt .int),
-    ("env", .map [] [(.anyKey, opt .str)] false false) ]
+    ("env", .map [] [(.anyKey, .scalarNN .str)] false false) ]
 
 def scalarSeq : Rule := .seq [opt .scalar] false
 
